@@ -3,6 +3,7 @@ import Ctap.Request
 import Ctap.Frame
 import Ctap.AuthData
 import Ctap.Ctap1
+import Ctap.Dispatch
 import Props.GenTables
 import Spec
 /-
@@ -110,6 +111,8 @@ structure Source where
   u2fParse : Nat → Nat → Nat → List Byte → Outcome (Except U2fErr U2fReq)
   u2fsCase : Nat → List Byte → U2fResp → String
   regnewCase : List Byte → List Byte → String
+  call2Case : String → String → String → String → String
+  call1Case : String → String → String → String
   adatCase : Cfg → String → List Byte → Nat → Nat → Option (Option Acd) → Option Val → String
   tables : String → Option (List (String × Nat))
   controlByte : Nat → Option Nat      -- byte → variant index
@@ -218,10 +221,55 @@ def genRegnewCase (x y : List Byte) : String :=
 
 def specRegnewCase (x y : List Byte) : String := "ok " ++ toHex (0x04 :: x ++ y)
 
+/-- the recording mock as a `Behaviour`: state = unit, the named method fails with the code -/
+def mockBehaviour (fail : String) : Behaviour Unit :=
+  { run := fun m _ s =>
+      match fail.splitOn ":" with
+      | [fm, code] => if fm = m then (s, some (code.toNat?.getD 0)) else (s, none)
+      | [fm] => if fm = m ∧ fm ≠ "-" then (s, some 0) else (s, none)
+      | _ => (s, none) }
+
+def showDispatch (withSame : Bool) (payloadMethods : List String)
+    (r : Option (Unit × List (String × Bool) × Except Nat String)) (errShow : Nat → String) (okExtra : String) : String :=
+  match r with
+  | none => "panic"
+  | some (_, log, res) =>
+    -- `version()` is an associated function without `self`: the mock cannot record it
+    let names := (log.map (·.1)).filter (· ≠ "version")
+    let same := if log.isEmpty then "-" else if log.all (fun (m, p) => p == payloadMethods.contains m) then "T" else "F"
+    let rs := match res with | .ok v => "ok " ++ v ++ okExtra | .error e => "err " ++ errShow e
+    s!"log={if names.isEmpty then "-" else ",".intercalate names}" ++ (if withSame then s!" same={same}" else "") ++ s!" res={rs}"
+
+def payloadMethods2 : List String :=
+  ["make_credential", "get_assertion", "client_pin", "credential_management", "large_blobs", "vendor"]
+
+def genCall2 (arms : List Arm) (defaultLbErr : Nat) (rpcOk : Bool) (entry lb variant fail : String) : String :=
+  if entry = "rpc" ∧ !rpcOk then "panic"
+  else if lb = "nolb" ∧ variant = "LargeBlobs" then
+    -- the trait's default handler: no user code runs
+    (match arms.lookup variant with
+     | some (_, _, true) => s!"log=- same=- res=err {defaultLbErr}"
+     | _ => "panic")
+  else showDispatch true payloadMethods2 (dispatch arms (mockBehaviour fail) variant ()) toString ""
+
+def specArms (rows : List (String × String × Bool × String × Bool)) : List Arm :=
+  rows.map fun row => (row.1, [(row.2.1, row.2.2.1)], [row.2.2.2.1], row.2.2.2.2)
+
+def u2fMockErr (_ : Nat) : String := "27013"   -- unused: per-method codes below
+
+def genCall1 (arms : List Arm) (rpcOk : Bool) (version : String) (entry variant fail : String) : String :=
+  if entry = "rpc" ∧ !rpcOk then "panic"
+  else
+    let errShow (_ : Nat) : String := if fail = "register" then "27013" else "27264"   -- 0x6985 / 0x6A80
+    showDispatch false [] (dispatch arms (mockBehaviour fail) variant ()) errShow
+      (if variant = "Version" then " " ++ toHex version.toUTF8.toList else "")
+
 def genSource : Source :=
   { reqRoles := Gen.reqRoles, respRoles := Gen.respRoles, adExtRoles := Gen.adExtRoles,
     reqTables := Gen.reqTables, respCase := genRespCase, adatCase := genAdatCase, u2fParse := ctap1Parse Gen.controlByteTryFrom,
-    u2fsCase := genU2fsCase, regnewCase := genRegnewCase, opCase := genOpCase, vopCase := genVopCase,
+    u2fsCase := genU2fsCase, regnewCase := genRegnewCase,
+    call2Case := genCall2 Gen.dispatch2 ((Gen.statusCodes.lookup Gen.largeBlobsDefaultError).getD 999) Gen.rpc2Delegates,
+    call1Case := genCall1 Gen.dispatch1 Gen.rpc1Delegates Gen.versionDefault, opCase := genOpCase, vopCase := genVopCase,
     tables := fun n => if n = "status" then some Gen.statusCodes
                        else if n = "Permissions" then some Gen.flagsPermissions
                        else if n = "AuthenticatorDataFlags" then some Gen.flagsAuthenticatorDataFlags else none,
@@ -231,7 +279,9 @@ def genSource : Source :=
 def specSource : Source :=
   { reqRoles := Spec.reqRoles, respRoles := Spec.respRoles, adExtRoles := Spec.adExtRoles,
     reqTables := specReqTables, respCase := specRespCase, adatCase := specAdatCase, u2fParse := fun a b c d => .ret (Spec.u2fParse a b c d),
-    u2fsCase := specU2fsCase, regnewCase := specRegnewCase, opCase := specOpCase, vopCase := specVopCase,
+    u2fsCase := specU2fsCase, regnewCase := specRegnewCase,
+    call2Case := genCall2 (specArms Spec.dispatch2) Spec.statusInvalidCommand true,
+    call1Case := genCall1 (specArms Spec.dispatch1) true "U2F_V2", opCase := specOpCase, vopCase := specVopCase,
     tables := fun n => if n = "status" then some Spec.statusCodes
                        else if n = "Permissions" then some Spec.permissions
                        else if n = "AuthenticatorDataFlags" then some Spec.authDataFlags else none,
@@ -347,6 +397,27 @@ def handle (src : Source) (line : String) : String :=
     (match fromHex x, fromHex y with
      | some x, some y => src.regnewCase x y
      | _, _ => "bad-case")
+  | ["call2", entry, lb, req, fail] =>
+    -- the request variant (and vendor byte) comes from the request model; the mock behaviour from `fail`
+    let variant : Option String :=
+      if req.startsWith "vendor:" then some "Vendor"
+      else match fromHex req with
+        | some bs => (match requestDeserialize (src.reqTables ⟨false, false, false⟩) bs with
+                      | .ok v _ => some v
+                      | _ => none)
+        | none => none
+    (match variant with
+     | none => "bad-case"
+     | some v => src.call2Case entry lb v fail)
+  | ["call1", entry, apdu, fail] =>
+    (match (fromHex apdu).bind parseApdu with
+     | none => "bad-case"
+     | some a =>
+       match src.u2fParse a.cla a.ins a.p1 a.data with
+       | .ret (.ok r) =>
+         let v := match r with | .register _ _ => "Register" | .authenticate _ _ _ _ => "Authenticate" | .version => "Version"
+         src.call1Case entry v fail
+       | _ => "bad-case")
   | ["tbl", name] =>
     (match src.tables name with
      | some t => ",".intercalate (t.map fun (n, v) => s!"{n}={v}")
